@@ -204,6 +204,38 @@ fn random_graph(rng: &mut Rng) -> Graph {
     Graph { s: 0, t: n - 1, edges }
 }
 
+/// trunk -> hub -> fan of branches -> sink, plus a source-sink shortcut: needs several phases, and in the
+/// later phases one DFS augments repeatedly over the shared trunk (stale bottlenecks on the DFS stack)
+fn fan_graph(rng: &mut Rng) -> Graph {
+    let trunk = rng.range(1, 2) as usize;
+    let branches = rng.range(2, 4) as usize;
+    let hub = trunk; // nodes 0..=trunk form the trunk, hub = last trunk node
+    let sink = hub + branches + 1;
+    let mut edges = Vec::new();
+    if rng.chance(3, 4) {
+        edges.push((0, sink, rng.range(1, 3) as i32));
+    }
+    for i in 0..trunk {
+        edges.push((i, i + 1, rng.range(6, 14) as i32));
+    }
+    for b in 0..branches {
+        let node = hub + 1 + b;
+        edges.push((hub, node, rng.range(1, 9) as i32));
+        edges.push((node, sink, rng.range(1, 9) as i32));
+    }
+    if rng.chance(2, 3) {
+        edges.push((hub, sink, rng.range(1, 8) as i32));
+    }
+    if rng.chance(1, 3) {
+        // a cross edge between two branches
+        edges.push((hub + 1, hub + 2, rng.range(1, 4) as i32));
+    }
+    if rng.chance(1, 2) {
+        rng.shuffle(&mut edges);
+    }
+    Graph { s: 0, t: sink, edges }
+}
+
 fn render_case(family: &str, graphs: &[Graph], ph: &[Vec<i32>], b0: i32, sched: &[usize]) -> Case {
     let mut c = Case::new(family);
     c.op(format!("N {}", graphs.len()));
@@ -270,6 +302,49 @@ fn generate(rng: &mut Rng, tier: Tier, cases: &mut Vec<Case>) {
             for b0 in 0..=(f + 1) {
                 explore_all(std::slice::from_ref(g), std::slice::from_ref(ph), b0, "sequential", 10, cases);
             }
+        }
+    }
+    // sequential clause on fan-shaped multi-phase instances: every bound from 0 to well above the flow
+    let n_fans = match tier {
+        Tier::Quick => 60,
+        Tier::Thorough => 1200,
+    };
+    let mut fans: Vec<(Graph, Vec<i32>)> = vec![(
+        // witness of a seeded change (stale DFS-stack bottleneck used for an early abort): true flow 11
+        Graph { s: 0, t: 5, edges: vec![(0, 5, 1), (0, 1, 10), (1, 2, 10), (2, 3, 8), (2, 4, 2), (2, 5, 6), (3, 5, 8), (4, 5, 2)] },
+        Vec::new(),
+    )];
+    fans[0].1 = phases(&fans[0].0);
+    for _ in 0..n_fans {
+        let g = fan_graph(rng);
+        let ph = phases(&g);
+        if ph.len() >= 2 {
+            fans.push((g, ph));
+        }
+    }
+    for (g, ph) in &fans {
+        let f = *ph.last().unwrap_or(&0);
+        for b0 in 0..=(f + 6) {
+            explore_all(std::slice::from_ref(g), std::slice::from_ref(ph), b0, "sequential-fan", 10, cases);
+        }
+    }
+    // two fan instances against each other (all interleavings, bounds around both flows)
+    let fan_pairs = match tier {
+        Tier::Quick => 6,
+        Tier::Thorough => 60,
+    };
+    for _ in 0..fan_pairs {
+        let a = rng.pick(&fans).clone();
+        let b = rng.pick(&fans).clone();
+        if a.1.len() + b.1.len() > 7 {
+            continue;
+        }
+        let fa = *a.1.last().unwrap_or(&0);
+        let fb = *b.1.last().unwrap_or(&0);
+        let graphs = vec![a.0.clone(), b.0.clone()];
+        let ph = vec![a.1.clone(), b.1.clone()];
+        for b0 in [fa.min(fb), fa.max(fb), fa.max(fb) + 2] {
+            explore_all(&graphs, &ph, b0, "fan-pairs-2", 2000, cases);
         }
     }
     // concurrent: all interleavings, all initial bounds
